@@ -18,7 +18,7 @@ theorem gauss_translate (x y amp xo yo sx sy th ox oy : ℝ) :
     gauss (x - ox) (y - oy) amp (xo - ox) (yo - oy) sx sy th = gauss x y amp xo yo sx sy th := by
   have h1 : x - ox - (xo - ox) = x - xo := by ring
   have h2 : y - oy - (yo - oy) = y - yo := by ring
-  simp only [gauss]
+  simp only [gauss, gaussHand]
   first
     | (simp only [h1, h2]; done)
     | ring_nf
